@@ -836,6 +836,13 @@ def run_c09(ctx):
     scorer_guard(ctx)
 
 
+def run_c18(ctx):
+    """The id tables of the feature extractor (string -> id maps and the next-id counters) are
+    part of the model image: dictionaries are normally generated from a re-read model, so
+    `different strings -> different ids` needs the hand-written codecs to be symmetric."""
+    codec_rule(ctx, "C15")
+
+
 def run_c15(ctx):
     codec_rule(ctx, "C15")
     config_rule(ctx)
